@@ -10,7 +10,16 @@ ID = "C01"
 PROPS_FILE = "Props/C01.v"
 GEN_DEPS = ["GenUnits"]
 ALLOWED_AXIOMS: List[str] = []
-THEOREMS = {}
+THEOREMS = {
+    "C01_pass1_refines_resolve": "full",
+    "C01_rejects_exactly_documented": "full",
+    "C01_accepts_iff_resolvable": "full",
+    "C01_no_assert_crash": "full",
+    "C01_fold_rule": "full",
+    "C01_compiled_is_resolved_up_to_folding": "partial",   # full refinement to resolve;fold;embed not proved
+    "C01_fold_example": "example", "C01_named_fold_keeps_title": "example", "C01_two_uses_not_folded": "example",
+    "C01_other_block_not_folded": "example", "C01_errors_example": "example",
+}
 TRUSTED = [
     "Coq 8.16.1 kernel (coqc; vm_compute for correspondence only)",
     "Model/Compiler.v is a hand-written model of recipe_grid/compiler.py on the parser's AST (values already evaluated); "
